@@ -893,16 +893,18 @@ func (ex *Ex) BuildSMT(q *Query, rounds int) string {
 	ex.Props = q.Props // scoped clauses of contracts used as facts follow the producing run's scope
 	asserts := append([]*T(nil), q.PC...)
 	asserts = append(asserts, Not(q.Goal))
-	extra := ex.instantiateR(asserts, q.Heap, rounds, q.Reveal)
-	asserts = append(asserts, extra...)
-	ax := ex.relevantAxioms(asserts, q.Heap)
-	asserts = append(asserts, ax...)
-	// instances for terms introduced by axioms
-	extra2 := ex.instantiateR(asserts, q.Heap, 1, q.Reveal)
-	asserts = append(asserts, extra2...)
-	asserts = append(asserts, ex.quantifiedUnfolds(asserts, q.Heap, q.Reveal)...)
-	asserts = append(asserts, ex.closureAxioms(asserts, q.Heap)...)
-	asserts = append(asserts, ex.quantifiedDefiners(asserts, q.Heap)...)
+	if !ex.Lite {
+		extra := ex.instantiateR(asserts, q.Heap, rounds, q.Reveal)
+		asserts = append(asserts, extra...)
+		ax := ex.relevantAxioms(asserts, q.Heap)
+		asserts = append(asserts, ax...)
+		// instances for terms introduced by axioms
+		extra2 := ex.instantiateR(asserts, q.Heap, 1, q.Reveal)
+		asserts = append(asserts, extra2...)
+		asserts = append(asserts, ex.quantifiedUnfolds(asserts, q.Heap, q.Reveal)...)
+		asserts = append(asserts, ex.closureAxioms(asserts, q.Heap)...)
+		asserts = append(asserts, ex.quantifiedDefiners(asserts, q.Heap)...)
+	}
 	facts, tdefs := ex.typeFacts(asserts)
 	asserts = append(asserts, facts...)
 	// results of spec functions declared with an interface type have that interface's methods
@@ -962,6 +964,30 @@ func (ex *Ex) BuildSMT(q *Query, rounds int) string {
 				}
 			})
 		}
+		usesWfr := false
+		for _, a := range asserts {
+			Walk(a, func(x *T) {
+				if x.Kind == kApp && x.Op == "f$wfR" {
+					usesWfr = true
+				}
+			})
+		}
+		if usesWfr {
+			// program text without redaction markers is a well-formed redactable fragment
+			for _, k := range sortedKeys(lits) {
+				if !strings.ContainsAny(k, "\u2039\u203a") {
+					asserts = append(asserts, App("f$wfR", SBool, lits[k]))
+					asserts = append(asserts, App("f$noMarkers", SBool, lits[k]))
+				}
+			}
+			for _, app := range groundApps(asserts, func(op string) bool { return op == "str.++" }) {
+				var parts []*T
+				for _, a := range app.Args {
+					parts = append(parts, App("f$wfR", SBool, a))
+				}
+				asserts = append(asserts, Implies(And(parts...), App("f$wfR", SBool, app)))
+			}
+		}
 		if usesSafe {
 			for _, k := range sortedKeys(lits) {
 				asserts = append(asserts, App("f$safeS", SBool, lits[k]))
@@ -999,6 +1025,10 @@ func (ex *Ex) BuildSMT(q *Query, rounds int) string {
 				}
 			}
 		}
+	}
+	// []byte(s) and string(b) are inverse on what the program converts
+	for _, ba := range groundApps(asserts, func(op string) bool { return op == "bytesOf" }) {
+		asserts = append(asserts, Eq(App("stringOf$"+ba.S.Mangle(), SString, ba), ba.Args[0]))
 	}
 	// Go integer division / remainder truncate toward zero (defined through SMT-LIB div)
 	for _, da := range groundApps(asserts, func(op string) bool { return op == "gdiv" || op == "grem" }) {
